@@ -383,9 +383,14 @@ func vpC07Outside(n int) {
 		}
 	}
 	y, err := UnmarshalJSON(vpC07Doc(name, 'q', 't'))
-	if err == nil && y != nil {
-		_, plain := y.(*Object)
-		vpAssert("outside/json-plain-object-or-nothing", plain)
+	vpAssert("outside/json-error-or-nothing", err != nil || IsNil(y))
+	// nested in an item position and in a list: nothing there either, the rest of the document is read
+	outer, err := UnmarshalJSON([]byte(`{"id":"https://h.ex/outer","type":"Note","icon":` + string(vpC07Doc(name, 'q', 't')) + `,"tag":["https://h.ex/first",` + string(vpC07Doc(name, 'r', 't')) + `]}`))
+	if o, ok := outer.(*Object); ok && err == nil {
+		vpAssert("outside/json-nested-nothing", IsNil(o.Icon))
+		vpAssert("outside/json-list-nothing", len(o.Tag) == 1)
+	} else {
+		vpAssert("outside/json-outer-read-or-error", err != nil)
 	}
 	reg, err := GetItemByType(name)
 	if err == nil && reg != nil {
@@ -416,6 +421,41 @@ func vpEqualFold(a, b string) bool {
 }
 
 func vpH_C07_outside() { vpC07Outside(1 + vpChoice(5)) }
+
+// with the hooks installed a name outside the vocabulary is decoded by the hooks - whatever kind of
+// fresh value the typer hook hands out (typed or untyped) - and without them the same document is nothing
+func vpH_C07_hooks_outside() {
+	typedFresh := vpBool()
+	calls := 0
+	var seen ActivityVocabularyType
+	saveT, saveU := ItemTyperFunc, JSONItemUnmarshal
+	ItemTyperFunc = func(t ActivityVocabularyType) (Item, error) {
+		if t == vpCustomType {
+			if typedFresh {
+				return &Object{Type: t}, nil
+			}
+			return &Object{}, nil
+		}
+		return GetItemByType(t)
+	}
+	JSONItemUnmarshal = func(t ActivityVocabularyType, v *fastjson.Value, it Item) error {
+		calls++
+		seen = t
+		return OnObject(it, func(o *Object) error { return JSONLoadObject(v, o) })
+	}
+	idc, txt := vpAlnum(), vpLower()
+	y, err := UnmarshalJSON(vpC07Doc(vpCustomType, idc, txt))
+	ItemTyperFunc, JSONItemUnmarshal = saveT, saveU
+	vpAssert("hooks-outside/decoded", err == nil && y != nil)
+	vpAssert("hooks-outside/unmarshal-hook-called-once", calls == 1 && seen == vpCustomType)
+	if y != nil {
+		id, nm := vpC07IDName(y)
+		vpAssert("hooks-outside/id-and-name", id == IRI("https://h.ex/"+string([]byte{idc})) && len(nm) == 1 && nm[0] == txt)
+	}
+	z, err := UnmarshalJSON(vpC07Doc(vpCustomType, idc, txt))
+	vpAssert("hooks-outside/without-hooks-nothing", err != nil || IsNil(z))
+	vpReach("end")
+}
 func vpT_C07_outside6() { vpC07Outside(6 + vpChoice(3)) }
 
 func vpW_C07_twin() {
